@@ -13,6 +13,7 @@ Line protocol for C11 (molar / mass / volumetric views and units of measure).
   sync <s> <T> <P> <ph|-> <R> | mixinto <s> <phases of the inlets> <P> <R>
                                              → ok <0|1> <phase(s)>
   link <s> <o> <flow> <phase> <TP> | unlink <s>   → ok
+  view <s> <c> | proxy <s> | flowproxy <s>       → ok <sid of ms[c] / the proxy>
   rdmol <s> | rdmass <s> | rdvol <s> <V>     → m <-|v<id>> <mat of floats>
   rdF <s> <dim> <V>                          → x - <float>
   wrF <s> <dim> <x> <V>                      → ok
@@ -82,6 +83,9 @@ def parseOp? (t : List String) : Option Op :=
     pure (.sync (← s.toNat?) (← parseRat? T) (← parseRat? P) (← parsePh? ph) (← parseMat? r))
   | ["mixinto", s, others, P, r] => do
     pure (.mixInto (← s.toNat?) others.toList (← parseRat? P) (← parseMat? r))
+  | ["view", s, c] => do pure (.view (← s.toNat?) (← parseChar? c))
+  | ["proxy", s] => do pure (.proxy (← s.toNat?))
+  | ["flowproxy", s] => do pure (.flowProxy (← s.toNat?))
   | ["rdmol", s] => do pure (.readMol (← s.toNat?))
   | ["rdmass", s] => do pure (.readMass (← s.toNat?))
   | ["rdvol", s, v] => do pure (.readVol (← s.toNat?) (← parseMat? v))
